@@ -302,6 +302,9 @@ func cmdCheck(args []string) int {
 				if i < 8 {
 					mj, _ := json.Marshal(f.Model)
 					fmt.Fprintf(os.Stderr, "   finding: %s known=%q %s\n      decisions=%v\n      stack=%s\n", f.Msg, f.KnownID, mj, f.Decisions, f.Stack)
+					if len(f.Observed) > 0 {
+						fmt.Fprintf(os.Stderr, "      observed=%v\n", f.Observed)
+					}
 				}
 			}
 		}
